@@ -749,6 +749,53 @@ def tofloat(p, env: dict) -> float:
     return ev(co(p))
 
 
+def probe(p, env: dict):
+    """float value of p at a point together with the sum of the absolute values of its terms
+    (|rounding error| <= ~1e-13 * abssum, so |value| > 1e-6 * abssum proves p != 0 at that point)"""
+    from scipy.special import erf as _erf
+
+    cache = dict(env)
+
+    def val(g):
+        if g in cache:
+            return cache[g]
+        d = DEFS.get(g)
+        if d is None:
+            raise KeyError(g)
+        if d[0] == "poly":
+            v = ev(d[1])[0]
+        elif d[0] == "root":
+            b = ev(d[1])[0]
+            if b <= 0:
+                raise ValueError("root of non-positive")
+            v = b ** (1.0 / d[2])
+        elif d[0] == "fn":
+            if d[1] == "const:pi":
+                v = math.pi
+            else:
+                a = ev(d[2])[0]
+                v = {"log": math.log, "exp": math.exp, "erf": lambda z: float(_erf(z)), "cos": math.cos, "sin": math.sin}[d[1]](a)
+        elif d[0] == "ghost":
+            if d[3] is None:
+                raise KeyError(g)
+            v = float(d[3](*[ev(a)[0] for a in d[1]]))
+        cache[g] = v
+        return v
+
+    def ev(q):
+        s = 0.0
+        a = 0.0
+        for m, c in q.t.items():
+            t = float(c)
+            for g, e in m:
+                t *= val(g) ** e
+            s += t
+            a += abs(t)
+        return s, a
+
+    return ev(co(p))
+
+
 # --------------------------------------------------------------------------- array helpers
 def symarray(name, shape):
     a = np.empty(shape, dtype=object)
